@@ -682,6 +682,9 @@ func (x *Exec) callContract(call *ast.CallExpr, c *Contract, obj *types.Func, fi
 		if i == 0 && c.Yields != "" {
 			rv.Proto = x.W.protoOf(c.Yields)
 		}
+		if p, ok := c.ParamProto[fmt.Sprintf("result%d", i)]; ok {
+			rv.Proto = x.W.protoOf(p)
+		}
 		rvals = append(rvals, rv)
 		post[rn[i]] = rv
 		if i == 0 {
